@@ -15,9 +15,10 @@ template <class View> std::string chan_json(View const& v, int ch) {
 // source embedded in a canary image: the surroundings hold a sentinel far outside the data range
 template <class Img> Img make_src(int w, int h, vt::Rng& rng, Img& big) {
     big = Img(w + 6, h + 6); using P = typename Img::value_type; using ch_t = typename gil::channel_type<P>::type;
-    for (auto& p : gil::view(big)) gil::static_fill(p, ch_t(250));
+    constexpr bool neg = std::is_signed<ch_t>::value && std::is_integral<ch_t>::value;      // signed integral channels: negative data
+    for (auto& p : gil::view(big)) gil::static_fill(p, ch_t(neg ? 120 : 250));
     auto v = gil::subimage_view(gil::view(big), 3, 3, w, h);
-    for (auto& p : v) gil::static_generate(p, [&]() { return ch_t(40 + rng.below(60)); });
+    for (auto& p : v) gil::static_generate(p, [&]() { return neg ? ch_t(-(40 + (int)rng.below(60))) : ch_t(40 + rng.below(60)); });
     return big;
 }
 template <class Img, class F, int NCH> void samples(const char* types, int w, int h, vt::Rng& rng) {
@@ -103,6 +104,8 @@ int main(int argc, char** argv) {
         if (mine() && (w + h) % 2 == 0) vt::isolated([&] { samples<gil::rgb8_image_t, float, 3>("rgb8/float", w, h, rng); });
         if (mine() && (w * h) % 3 != 2) vt::isolated([&] { samples<gil::gray16_image_t, double, 1>("gray16/double", w, h, rng); });
         if (mine() && w <= 3) vt::isolated([&] { samples<gil::gray32f_image_t, float, 1>("gray32f/float", w, h, rng); });
+        if (mine() && (w + 2 * h) % 3 != 0) vt::isolated([&] { samples<gil::gray8s_image_t, double, 1>("gray8s/double", w, h, rng); });
+        if (mine() && (w + h) % 3 == 0) vt::isolated([&] { samples<gil::gray16s_image_t, float, 1>("gray16s/float", w, h, rng); });
         if (mine()) vt::isolated([&] { resample<gil::gray8_image_t, 1>("gray8", w, h, rng); resample<gil::rgb8_image_t, 3>("rgb8", w, h, rng); });
     }
     if (mine()) { vt::Rng rng(args.seed * 7 + 1); affine(rng); }
